@@ -3,11 +3,13 @@
 Pipeline (DESIGN 5/C10, design.d/C10.md):
   1. TLC checks spec/io/Poller.tla exhaustively (BasePoller bookkeeping +
      Select / fixed Poll / EPoll kernel registration + one iteration, against
-     the C10 monitor of PollerOps and direct invariants); the "poll" variant
-     (the pinned Poll's stale fileno -> object map) must violate C10.ghost_fd.
+     the C10 monitor of PollerOps and direct invariants); the defect generators
+     "poll" (stale fileno -> object map) and "selectesc" (the EBADF of a closed
+     int descriptor escapes from Select's preen) must violate C10.
   2. TLC dumps every environment history up to the bound (and simulates seeded
      deeper ones); each is replayed on the REAL Select, Poll and EPoll with
-     real AF_UNIX socket pairs and the real kernel: after every operation one
+     real AF_UNIX socket pairs and the real kernel (descriptors registered as
+     socket objects or, "addri"/"addwi", by plain number): after every operation one
      zero-timeout iteration (generate_events with time_left 0 through the event
      system), readiness measured on the raw descriptors right before.
   3. The three pollers' streams of one history form one trace; TLC judges all
@@ -104,6 +106,9 @@ class World:
         self.poller.register(self.root)
         self.events = []
         self.socks = {}      # object -> socket object (kept after close)
+        self.realfd = {}     # object -> its descriptor number (kept after close)
+        self.byint = set()   # objects the environment registers by number (a plain int) ...
+        self.byobj = set()   # ... / as socket objects
         self.num = {}        # object -> model number while open
         self.open = set()
         self.notes = []
@@ -149,11 +154,23 @@ class World:
         out = []
         for kind, fdobj, ch in evs:
             o = 0
-            for k, s in self.socks.items():
-                if s is fdobj:
-                    o = k
+            if isinstance(fdobj, int) and not isinstance(fdobj, bool):
+                # a number stands for the descriptor registered by that number: the open one, else
+                # the one closed last (the model never reuses the number of a dead int registration)
+                cands = [k for k in self.byint if self.realfd.get(k) == fdobj]
+                live = [k for k in cands if k in self.open]
+                if live or cands:
+                    o = (live or cands)[-1]
+            else:
+                for k, s in self.socks.items():
+                    if s is fdobj:
+                        o = k
             out.append((kind, o, ch))
         return out
+
+    def handle(self, o):
+        """What the environment hands to the poller for object o."""
+        return self.realfd[o] if o in self.byint else self.socks.get(o)
 
     def iterate(self):
         """One zero-timeout iteration of the poller through the event system,
@@ -186,6 +203,7 @@ class World:
         out = []
         for o, n in ((a, na), (b, nb)):
             self.num[o] = n
+            self.realfd[o] = self.socks[o].fileno()
             self.open.add(o)
             out.append(line('open', o=o, a=self.socks[o].fileno() - self.base))
         return out
@@ -242,22 +260,28 @@ class World:
         with the shared operation lines and this poller's lines."""
         name, o = h[0], h[1]
         ops, pre = [], []
-        s = self.socks.get(o)
-        if name == 'addr':
-            ops.append(line('addr', o=o, ch=CH[o]))
-            self.api(pre, 'addReader', o, self.owners[o], s)
-        elif name == 'addw':
-            ops.append(line('addw', o=o, ch=CH[o]))
-            self.api(pre, 'addWriter', o, self.owners[o], s)
+        s = self.socks.get(o)      # kernel-side operations always go through the socket object
+        if name in ('addri', 'addwi', 'addr', 'addw'):
+            want = self.byint if name in ('addri', 'addwi') else self.byobj
+            if o in (self.byint | self.byobj) - want:
+                raise tlc.MachineryError('object %d changes between registration by number and as an object' % o)
+            want.add(o)
+        byint = 1 if o in self.byint else 0
+        if name in ('addr', 'addri'):
+            ops.append(line('addr', o=o, ch=CH[o], a=byint))
+            self.api(pre, 'addReader', o, self.owners[o], self.handle(o))
+        elif name in ('addw', 'addwi'):
+            ops.append(line('addw', o=o, ch=CH[o], a=byint))
+            self.api(pre, 'addWriter', o, self.owners[o], self.handle(o))
         elif name == 'remr':
             ops.append(line('remr', o=o))
-            self.api(pre, 'removeReader', o, s)
+            self.api(pre, 'removeReader', o, self.handle(o))
         elif name == 'remw':
             ops.append(line('remw', o=o))
-            self.api(pre, 'removeWriter', o, s)
+            self.api(pre, 'removeWriter', o, self.handle(o))
         elif name == 'discard':
             ops.append(line('discard', o=o))
-            self.api(pre, 'discard', o, s)
+            self.api(pre, 'discard', o, self.handle(o))
         elif name == 'send':
             ops.append(line('send', o=o))
             s.send(b'x')
@@ -282,7 +306,7 @@ class World:
             ops += self.close_obj(o)
         elif name == 'dclose':
             ops.append(line('discard', o=o))
-            self.api(pre, 'discard', o, s)
+            self.api(pre, 'discard', o, self.handle(o))
             ops += self.close_obj(o)
         elif name == 'openb':
             ops += self.open_pair(3, 4)
@@ -302,7 +326,7 @@ class World:
         for eo in sorted({eo for kind, eo, ch in evs if kind == 'disconnect' and eo}):
             # what Client/Server do on _disconnect: discard the descriptor
             acks.append(line('discard', p=self.pname, o=eo))
-            self.api(acks, 'discard', eo, self.socks[eo])
+            self.api(acks, 'discard', eo, self.handle(eo))
         return {'ops': ops, 'pre': pre, 'poll': line('poll', p=self.pname, a=r, b=w, c=hm, d=dm), 'evs': evl, 'acks': acks}
 
     def teardown(self):
@@ -522,6 +546,8 @@ def witness_of(lines, badline, clause):
             if o not in openset:
                 discarded_after_close = True
     w = {'poller': p or 'all', 'line': ln['k']}
+    if ln['k'] == 'error':
+        w['error'] = ln['ch']      # 'exception' = the poller's handler raised, 'raised' = an API call raised
     if ln['k'] in EVNAME.values():
         w['object'] = 'none' if o == 0 else ('open' if o in openset else 'closed')
         if o and o not in openset:
@@ -686,7 +712,7 @@ def run(tier, replay=None):
         mc, cover, bads = dump_histories('MC_Poller_cover.cfg', workers=1)
         mc_states, mc_trans = mc.distinct, mc.generated
         cover_states = mc.distinct
-        if not any(k[0] == 'poll' and b == 'C10.ghost_fd' for k, b in bads.items()) or any(k[0] != 'poll' for k in bads):
+        if not any(k[0] == 'poll' and b == 'C10.ghost_fd' for k, b in bads.items()) or any(k[0] != 'poll' for k in bads):   # noqa
             raise tlc.MachineryError('state dump: only the "poll" variant may and must reach C10.ghost_fd, got %r'
                                      % (sorted({(k[0], b) for k, b in bads.items()}),))
         model.update(cover)
@@ -703,6 +729,12 @@ def run(tier, replay=None):
         raise tlc.MachineryError('the "poll" variant of Poller.tla no longer violates C10 (got %r): the model lost its teeth' % gen.violated)
     gen_hist = hkey(gen.error_trace[-1][1]['hist'])
     gen_clause = gen.error_trace[-1][1].get('bad')
+    # ... and with a Select whose preen lets the EBADF of a closed int descriptor escape
+    gen2 = tlc.run_tlc(SPEC, 'Poller', 'MC_Poller_preen.cfg', workers=1)
+    if gen2.violated != 'ConformsAll' or not gen2.error_trace:
+        raise tlc.MachineryError('the "selectesc" variant of Poller.tla does not violate C10 (got %r): the model lost its teeth' % gen2.violated)
+    gen2_hist = hkey(gen2.error_trace[-1][1]['hist'])
+    gen2_clause = gen2.error_trace[-1][1].get('bad')
     phase('mc_stale')
 
     # 2. every environment history of <= 4 operations (no VIEW: one state per history), with the
@@ -713,13 +745,15 @@ def run(tier, replay=None):
         model.setdefault(k, v)
     # no dead action: every operation of the model occurs in the enumerated histories
     seen_ops = {x[0] for k in model4 for x in k[1]}
-    for op in ('addr', 'addw', 'remr', 'remw', 'discard', 'send', 'drain', 'fill', 'close', 'dclose', 'openb', 'creopen'):
+    for op in ('addr', 'addw', 'addri', 'addwi', 'remr', 'remw', 'discard', 'send', 'drain', 'fill', 'close', 'dclose',
+               'openb', 'creopen'):
         if op not in seen_ops:
             raise tlc.MachineryError('vacuous model: operation %s never taken' % op)
     for h in maximal({k[1] for k in model4}):
         add(h, 'tlc-history')
-    add(gen_hist, 'tlc-counterexample')
-    suite[gen_hist] = 'tlc-counterexample'
+    for g in (gen_hist, gen2_hist):
+        add(g, 'tlc-counterexample')
+        suite[g] = 'tlc-counterexample'
     phase('dump')
 
     def model_lines(kd, h):
@@ -831,7 +865,9 @@ def run(tier, replay=None):
         'trace_validation_states': stats['states'], 'phase_seconds': phases,
         'corrupted_traces_rejected': len(muts), 'corrupted_traces_by_clause': corrupt_by_clause,
         'stale_variant_counterexample': {'violated': gen.violated, 'clause': gen_clause, 'hist': gen_hist},
-        'rule': 'cases = environment histories (registration + kernel operations over 2 socket pairs): every maximal history '
+        'preen_escape_variant_counterexample': {'violated': gen2.violated, 'clause': gen2_clause, 'hist': gen2_hist},
+        'histories_with_int_descriptor': sum(1 for h in hists if any(x[0] in ('addri', 'addwi') for x in h)),
+        'rule': 'cases = environment histories (registration as socket object or by plain number + kernel operations over 2 socket pairs): every maximal history '
                 'of <= 4 operations TLC enumerates for Poller.tla (quick: objects 1, 3 registrable; thorough: 1, 2, 3), the '
                 'counterexample of the stale-map variant, seeded TLC simulations of up to 8 operations, and (thorough) the '
                 'first-discovery history of every state of the complete reachable state space; each replayed on the real Select, Poll and EPoll (one combined trace); '
@@ -841,5 +877,6 @@ def run(tier, replay=None):
         'kernel readiness is measured (select + poll on the raw descriptor right before each iteration), not predicted; '
         'AF_UNIX socket pairs: readiness is deterministic once measured',
         'descriptor numbers are placed on a reserved block with dup2 so that reuse is deterministic; the number in the trace is measured',
-        'one owner component (channel) per descriptor; no operation other than discard on a closed descriptor',
+        'one owner component (channel) per descriptor; no operation other than discard on a closed descriptor; the number of '
+        'a descriptor registered as a plain int is not reused while that registration is alive',
     ])
